@@ -59,6 +59,7 @@ void vr_count(int idx, long n);
 // record a violation and exit(1) (never returns)
 void vr_fail(const char *sig, const char *fmt, ...) __attribute__((noreturn, format(printf, 2, 3)));
 void vr_at(int opidx, const char *name);
+void vr_trace(const char *fmt, ...) __attribute__((format(printf, 1, 2))); // stderr, only with VERIF_TRACE set
 // Known findings (read-only list installed by the driver from known_findings.json).  vr_soft_fail
 // reports a violation unless its signature is listed as known, in which case the hit is counted
 // and the case continues, so one recorded defect does not hide everything behind it.
